@@ -15,6 +15,7 @@ import (
 	"sort"
 	"strconv"
 	"strings"
+	"sync/atomic"
 	"time"
 
 	"github.com/davecgh/go-spew/spew"
@@ -565,6 +566,32 @@ type runOut struct {
 // and must expire twice, see Compile).
 var Watchdog = 20 * time.Second
 
+// MemHigh is set by the process when its heap passes the limit: a call that has been running for
+// more than two seconds is then given up at once (a compilation that loops while allocating would
+// otherwise take the process down before the watchdog expires).
+var MemHigh atomic.Bool
+
+// WaitChan waits for a value on done until the bound expires or memory runs away (ok = false).
+func WaitChan[T any](done <-chan T, bound time.Duration) (v T, ok bool) {
+	start := time.Now()
+	deadline := time.NewTimer(bound)
+	defer deadline.Stop()
+	tick := time.NewTicker(250 * time.Millisecond)
+	defer tick.Stop()
+	for {
+		select {
+		case v = <-done:
+			return v, true
+		case <-deadline.C:
+			return v, false
+		case <-tick.C:
+			if MemHigh.Load() && time.Since(start) > 2*time.Second {
+				return v, false
+			}
+		}
+	}
+}
+
 // Compile compiles the chain of c.Svc reps times and records a digest of each complete output.
 //
 //	src "direct": discoverychain.Compile over ALL stored entries, every time rebuilt from the
@@ -626,14 +653,15 @@ func (h *H) Compile(c *Cmd, reps int, rnd *rand.Rand) (CompileRes, error) {
 				}()
 				done <- fn()
 			}()
-			select {
-			case out = <-done:
-				returned = true
-			case <-time.After(Watchdog):
+			out, returned = WaitChan(done, Watchdog)
+			if MemHigh.Load() {
+				break
 			}
 		}
 		if !returned {
+			// the goroutine is abandoned; "no-return" is a result class of its own
 			res.Hung = true
+			res.Class = "no-return"
 			return res, nil
 		}
 		if out.err != nil {
